@@ -54,63 +54,57 @@ def run(ctx: Ctx) -> None:
                         "bypasses the range check")
             if isinstance(n, ast.Call) and isinstance(n.func, ast.Attribute) and isinstance(n.func.value, ast.Attribute) \
                     and n.func.value.attr == "memory_file" and n.func.attr in ("get", "pop", "setdefault", "update", "__setitem__", "__getitem__", "clear"):
+                n_sub += n.func.attr != "clear"
                 ok = (f.cls is mem and f.name == "reset" and n.func.attr == "clear") or \
                      (f.cls is mem and f.name in ("_read_value", "_write_value") and n.func.attr in ("get", "setdefault", "__getitem__", "__setitem__"))
                 r.check(ok, f"{short(f.qname)}|memory_file.{n.func.attr}", f.loc(n), f"{short(f.qname)} uses memory_file.{n.func.attr}(..) outside the checked accessors")
     if n_sub < 2:
         ctx.floor_misses.append("R18.range: cell subscripts vanished")
+    from ..parsershape import normal_flow
+    L = "P0.address_length"
+    WRAPS = {f"Mod(P1, Pow(2, {L}))", f"Mod(P1, LShift(1, {L}))", f"BitAnd(P1, Sub(Pow(2, {L}), 1))", f"BitAnd(P1, Sub(LShift(1, {L}), 1))"}
+    KEYS = {f"cases[P0.address_overflow]{{{w} #2; P1 #1}}" for w in WRAPS} | {f"cases[P0.address_overflow]{{P1 #1; {w} #2}}" for w in WRAPS}
     for name in ("_read_value", "_write_value"):
-        f = m.method(mem, name, own=True)
-        s0 = f.params[0]
-        a = f.params[1]
-        for p in function_paths(f.node):
-            facts: set = set()
-            wrapped = checked = False
-            wrap_after_check = False
-            for e in p.events:
-                if e.kind == "test":
-                    facts |= facts_of(e.node, bool(e.pol))
-                if e.kind == "stmt" and isinstance(e.node, ast.Assign) and ast.unparse(e.node.targets[0]) == a:
-                    v = e.node.value
-                    okw = isinstance(v, ast.BinOp) and isinstance(v.op, ast.Mod) and ast.unparse(v.left) == a and \
-                        " ".join(ast.unparse(v.right).split()) in (f"2 ** {s0}.address_length", f"(2 ** {s0}.address_length)")
-                    if okw:
-                        wrapped = True
-                        if checked:
-                            wrap_after_check = True
-                    else:
-                        r.viol(f"Memory.{name}|address-rebound", f.loc(e.node), f"address is rebound to `{ast.unparse(v)}` (only `address % 2**address_length` is expected)")
-                for x in event_exprs(e):
-                    for c in calls_in(x):
-                        if isinstance(c.func, ast.Attribute) and c.func.attr == "assert_address_in_range" and [ast.unparse(z) for z in c.args] == [a]:
-                            checked = True
-                    for sub in ast.walk(x):
-                        is_cell = isinstance(sub, ast.Subscript) and isinstance(sub.value, ast.Attribute) and sub.value.attr == "memory_file"
-                        if isinstance(sub, ast.Call) and isinstance(sub.func, ast.Attribute) and isinstance(sub.func.value, ast.Attribute) \
-                                and sub.func.value.attr == "memory_file" and sub.args:
-                            is_cell = True
-                            sub = ast.Subscript(value=sub.func.value, slice=sub.args[0], ctx=ast.Load(), lineno=sub.lineno, col_offset=sub.col_offset,
-                                                end_lineno=sub.end_lineno, end_col_offset=sub.end_col_offset)
-                        if is_cell:
-                            key = f"Memory.{name}|{'overflow' if (f'{s0}.address_overflow', True) in facts else 'no-overflow'}"
-                            ok = checked and not wrap_after_check and ast.unparse(sub.slice) == a
-                            if (f"{s0}.address_overflow", True) in facts:
-                                ok = ok and wrapped
-                            elif (f"{s0}.address_overflow", False) in facts:
-                                ok = ok and not wrapped
-                            else:
-                                ok = False  # the wrap decision is not taken from address_overflow
-                            r.check(ok, key, f.loc(sub), f"Memory.{name}: a path reaches memory_file[..] without "
-                                    "[wrap under address_overflow ->] assert_address_in_range(address) in that order", None, p.labels())
-    ar = m.method(mem, "assert_address_in_range", own=True)
-    txt = " ".join(ast.unparse(ar.node).split())
-    r.check(f"if not {ar.params[1]} in {ar.params[0]}.address_range: raise MemoryAddressError(" in txt or
-            f"if {ar.params[1]} not in {ar.params[0]}.address_range: raise MemoryAddressError(" in txt, "Memory.assert_address_in_range", ar.loc(),
-            "the range check is no longer `address not in address_range -> raise MemoryAddressError`")
-    rv = m.method(mem, "_read_value", own=True)
-    txt = " ".join(ast.unparse(rv.node).split())
-    r.check("except KeyError: value = self.class_of_memory_file_values(0)" in txt, "Memory._read_value|default-zero", rv.loc(),
-            "a never-written cell does not read as zero")
+        f = m.method(mem, name)
+        fl = normal_flow(m, f)
+        effs = [(e.kind, fl.canon(e.expr), fl.canon_cond(e.cond), e) for e in fl.effects]
+        checks = [(i, e) for i, (k, s_, c, e) in enumerate(effs) if k == "call" and isinstance(e.expr, ast.Call)
+                  and isinstance(e.expr.func, ast.Attribute) and e.expr.func.attr == "assert_address_in_range"]
+        if name == "_read_value":
+            cells = [(i, e.expr.args[0] if e.expr.args else None, e) for i, (k, s_, c, e) in enumerate(effs) if k == "call"
+                     and isinstance(e.expr, ast.Call) and isinstance(e.expr.func, ast.Attribute) and e.expr.func.attr in ("get", "__getitem__", "setdefault")
+                     and fl.canon(e.expr.func.value) == "P0.memory_file"]
+        else:
+            cells = [(i, e.expr.targets[0].slice, e) for i, (k, s_, c, e) in enumerate(effs) if k == "store"
+                     and isinstance(e.expr.targets[0], ast.Subscript) and fl.canon(e.expr.targets[0].value) == "P0.memory_file"]  # type: ignore[attr-defined]
+        key = f"Memory.{name}|access"
+        if len(cells) != 1:
+            r.check(False, key, f.loc(), f"Memory.{name}: expected exactly one cell access (memory_file[k] / memory_file.get(k, ..)), found {len(cells)}")
+            continue
+        ci, kexpr, ce = cells[0]
+        kcanon = fl.canon(kexpr)
+        r.check(kcanon in KEYS, f"Memory.{name}|wrap", f.loc(ce.node),
+                f"Memory.{name}: the cell key is `{fl.show(kexpr)}`; it must be `address % 2**address_length` under address_overflow and the plain address otherwise")
+        ok = len(checks) >= 1 and any(i < ci and fl.canon_cond(e.cond) == "TRUE" and e.expr.args == [] and
+                                      [fl.canon(k.value) for k in e.expr.keywords] == [kcanon] or
+                                      (i < ci and fl.canon_cond(e.cond) == "TRUE" and [fl.canon(a) for a in e.expr.args] == [kcanon])
+                                      for i, e in checks)
+        r.check(ok and fl.canon_cond(ce.cond) == "TRUE", f"Memory.{name}|checked", f.loc(ce.node),
+                f"Memory.{name}: a path reaches memory_file[..] without [wrap under address_overflow ->] "
+                "assert_address_in_range(<that same key>) in that order")
+        if name == "_read_value":
+            okd = isinstance(ce.expr, ast.Call) and ce.expr.func.attr in ("get", "setdefault") and len(ce.expr.args) == 2 \
+                and fl.canon(ce.expr.args[1]) == "P0.class_of_memory_file_values(0)" and len(fl.returns) == 1 \
+                and fl.canon(fl.returns[0].value) == fl.canon(ce.expr)
+            r.check(okd, "Memory._read_value|default-zero", f.loc(ce.node), "a never-written cell does not read as zero "
+                    "(the cell value must be memory_file.get(key, class_of_memory_file_values(0)) or the try/except KeyError form of it)")
+    ar = m.method(mem, "assert_address_in_range")
+    from ..flowspec import truth_function
+    fla = normal_flow(m, ar)
+    raises = [(fla.canon_cond(e.cond), fla.canon(e.expr)) for e in fla.effects if e.kind == "raise"]
+    ok = len(raises) == 1 and raises[0][0] == "not(In(P1, P0.address_range))" and raises[0][1].startswith("MemoryAddressError(")
+    r.check(ok, "Memory.assert_address_in_range", ar.loc(),
+            f"the range check is no longer `address not in address_range -> raise MemoryAddressError` (raises: {raises})")
     r.floor(6)
 
     le_rule(ctx)
@@ -119,107 +113,72 @@ def run(ctx: Ctx) -> None:
 
 
 def le_rule(ctx: Ctx) -> None:
+    """Little-endian (de)composition by abstract interpretation (sa.absrun over the bit-slice domain):
+    the multi-cell accessors are *run* on a symbolic value / symbolic cells for 1, 2, 4 and 8 cells of
+    8 and 16 bits; what matters is which bits reach which address, not how the loop is written."""
+    from ..absrun import AbsRun
     m = ctx.model
     mem = m.cls("Memory")
-    r = ctx.rule("R18.le", "little-endian (de)composition, bit-slice domain")
-    # ---- write
-    f = m.method(mem, "_write_multiple", own=True)
-    s0, addr, n_, val = f.params[0], f.params[1], f.params[2], f.params[3]
-    loop = next((x for x in f.node.body if isinstance(x, ast.For)), None)
-    if loop is None or ast.unparse(loop.iter) != f"range({n_})" or not isinstance(loop.target, ast.Name):
-        raise AnalysisError("R18.le: _write_multiple loop shape not recognised")
-    i = loop.target.id
-    call = None
-    shift = None
-    for st in loop.body:
-        if isinstance(st, ast.Expr) and isinstance(st.value, ast.Call) and ast.unparse(st.value.func) == f"{s0}._write_value":
-            call = st.value
-        if isinstance(st, ast.Assign) and ast.unparse(st.targets[0]) == val:
-            shift = st.value
-        if isinstance(st, ast.AugAssign) and ast.unparse(st.target) == val and isinstance(st.op, ast.RShift):
-            shift = ast.BinOp(left=ast.Name(id=val, ctx=ast.Load()), op=ast.RShift(), right=st.value)
-    if call is None or shift is None or len(call.args) != 2:
-        raise AnalysisError("R18.le: _write_multiple body shape not recognised")
-    r.check(linform(call.args[0]) == {addr: 1, i: 1}, "_write_multiple|address", f.loc(call), f"cell i is not written at address + i: `{seg(f, call.args[0])}`")
-    cell_expr = call.args[1]
-    if isinstance(cell_expr, ast.Call) and ast.unparse(cell_expr.func) == f"{s0}.class_of_memory_file_values" and len(cell_expr.args) == 1:
-        cell_expr = cell_expr.args[0]
-    order_ok = loop.body.index(next(st for st in loop.body if isinstance(st, ast.Expr) and st.value is call)) < \
-        loop.body.index(next(st for st in loop.body if (isinstance(st, ast.Assign) and ast.unparse(st.targets[0]) == val)
-                             or (isinstance(st, ast.AugAssign) and ast.unparse(st.target) == val)))
+    r = ctx.rule("R18.le", "little-endian (de)composition, abstract interpretation in the bit-slice domain")
+    fw = m.method(mem, "_write_multiple")
+    fr = m.method(mem, "_read_multiple")
     for w in (8, 16):
-        fold = Folder(m, f.module, None, {})
-        ev_env = {f"{s0}.memory_file_values_width": Form.k(w)}
+        for n in (1, 2, 4, 8):
+            # ---- write: cell k at address+k receives bits [w*k, w*(k+1)) of the value
+            s0, addr, n_, val = fw.params[:4]
+            writes: list = []
 
-        class F2(Folder):
-            def fold(self2, e):  # noqa: N805
-                if ast.unparse(e) == f"{s0}.memory_file_values_width":
-                    return w
-                return Folder.fold(self2, e)
+            def on_w(c: ast.Call, ev, _s0=s0, _w=w, _writes=writes):
+                fn = ast.unparse(c.func)
+                if fn == f"{_s0}._write_value" and len(c.args) == 2 and not c.keywords:
+                    _writes.append((ev.ev(c.args[0]), ev.ev(c.args[1]), c))
+                    return Form.k(0)
+                if fn == f"{_s0}.class_of_memory_file_values" and len(c.args) == 1:
+                    return ev.ev(c.args[0]).and_mask((1 << _w) - 1)  # the cell class keeps w bits
+                return None
 
-        fold2 = F2(m, f.module, None, {})
-        cur = Form.var("v")
-        ok = order_ok
-        bad = None
-        try:
-            for k in range(8):
-                cell = Evaluator({val: cur}, fold2).ev(cell_expr)
-                if cell != Form.field("v", w * k, w * (k + 1)):
-                    ok = False
-                    bad = (k, cell.describe())
-                    break
-                cur = Evaluator({val: cur}, fold2).ev(shift)
-        except Inconclusive as exc:
-            raise AnalysisError(f"R18.le: _write_multiple outside the bit-slice domain: {exc}")
-        r.check(ok, f"_write_multiple|w={w}", f.loc(loop), f"with {w}-bit cells, cell {bad[0] if bad else '?'} receives "
-                f"{bad[1] if bad else 'the value after the shift'} instead of bits [{w}*i, {w}*(i+1)) (little endian)")
-    # ---- read
-    f = m.method(mem, "_read_multiple", own=True)
-    s0, addr, n_ = f.params[0], f.params[1], f.params[2]
-    loop = next((x for x in f.node.body if isinstance(x, ast.For)), None)
-    if loop is None or ast.unparse(loop.iter) != f"range({n_})" or len(loop.body) != 1 or not isinstance(loop.body[0], ast.Assign):
-        raise AnalysisError("R18.le: _read_multiple loop shape not recognised")
-    i = loop.target.id  # type: ignore[attr-defined]
-    st = loop.body[0]
-    acc = ast.unparse(st.targets[0])
-    init = next((x for x in f.node.body if isinstance(x, ast.Assign) and ast.unparse(x.targets[0]) == acc), None)
-    r.check(init is not None and const_int(init.value) == 0, "_read_multiple|init", f.loc(), "accumulator does not start at 0")
-    rd = [c for c in calls_in(st) if ast.unparse(c.func) == f"{s0}._read_value"]
-    r.check(len(rd) == 1 and linform(rd[0].args[0]) == {addr: 1, i: 1}, "_read_multiple|address", f.loc(st), "cell i is not read from address + i")
-    for w in (8, 16):
-        class F3(Folder):
-            def fold(self2, e):  # noqa: N805
-                t = ast.unparse(e)
-                if t == f"{s0}.memory_file_values_width":
-                    return w
-                if t == i:
-                    return self2.extra["__i"]
-                return Folder.fold(self2, e)
+            key = f"_write_multiple|w={w},n={n}"
+            try:
+                AbsRun(m, fw, {addr: Form.var("a"), n_: Form.k(n), val: Form.var("v")}, {f"{s0}.memory_file_values_width": w}, on_w).run()
+                got = {repr((a - Form.var("a")).const if (a - Form.var("a")).is_const() else a.describe()): cell for a, cell, _ in writes}
+                want = {repr(k): Form.field("v", w * k, w * (k + 1)) for k in range(n)}
+                ok = len(writes) == n and set(got) == set(want) and all(got[k] == want[k] for k in want)
+                bad = next((f"address+{k}: {got[k].describe()}" for k in sorted(got) if k not in want or got[k] != want[k]), f"{len(writes)} cell writes")
+                r.check(ok, key, fw.loc(writes[0][2]) if writes else fw.loc(),
+                        f"with {w}-bit cells and {n} cells, _write_multiple does not store bits [{w}*i, {w}*(i+1)) of the value at address+i "
+                        f"(little endian): {bad}")
+            except Inconclusive as exc:
+                raise AnalysisError(f"R18.le: _write_multiple outside the bit-slice domain: {exc}")
+            # ---- read: the cell read at address+k lands at bit w*k
+            s0, addr, n_ = fr.params[:3]
+            reads: list = []
 
-        cur = Form.k(0)
-        ok = True
-        try:
-            for k in range(8):
-                fo = F3(m, f.module, None, {"__i": k})
-                env = {acc: cur}
-                if rd:
-                    env[f"int({ast.unparse(rd[0])})"] = Form.field(f"c{k}", 0, w)
-                    env[ast.unparse(rd[0])] = Form.field(f"c{k}", 0, w)
-                cur = Evaluator(env, fo).ev(st.value)
-            want = Form.k(0)
-            for k in range(8):
-                want = want + Form.field(f"c{k}", 0, w).lshift(w * k)
-            ok = cur == want
-        except Inconclusive as exc:
-            if "overlapping" in str(exc):
-                ok = False  # cells are OR-ed onto overlapping bit positions: certainly not a placement
-            else:
-                raise AnalysisError(f"R18.le: _read_multiple outside the bit-slice domain: {exc}")
-        r.check(ok, f"_read_multiple|w={w}", f.loc(loop), f"with {w}-bit cells the composed value is {cur.describe()[:120]}, "
-                "expected cell i at bit w*i (little endian)")
-    rets = [x for x in walk_no_nested(f.node) if isinstance(x, ast.Return)]
-    r.check(len(rets) == 1 and ast.unparse(rets[0].value) == acc, "_read_multiple|return", f.loc(), "composed value is not returned")
-    r.floor(8)
+            def on_r(c: ast.Call, ev, _s0=s0, _w=w, _reads=reads):
+                fn = ast.unparse(c.func)
+                if fn == f"{_s0}._read_value" and len(c.args) == 1 and not c.keywords:
+                    a = ev.ev(c.args[0]) - Form.var("a")
+                    if not a.is_const():
+                        raise Inconclusive("cell address is not address + constant")
+                    _reads.append((a.const, c))
+                    return Form.field(f"c{a.const}", 0, _w)
+                return None
+
+            key = f"_read_multiple|w={w},n={n}"
+            try:
+                res = AbsRun(m, fr, {addr: Form.var("a"), n_: Form.k(n)}, {f"{s0}.memory_file_values_width": w}, on_r).run()
+                want_f = Form.k(0)
+                for k in range(n):
+                    want_f = want_f + Form.field(f"c{k}", 0, w).lshift(w * k)
+                ok = res is not None and res == want_f and sorted(a for a, _ in reads) == list(range(n))
+                r.check(ok, key, fr.loc(reads[0][1]) if reads else fr.loc(),
+                        f"with {w}-bit cells and {n} cells, _read_multiple returns {res.describe() if res is not None else None}; "
+                        f"little endian requires cell i (read at address+i) at bit {w}*i")
+            except Inconclusive as exc:
+                if "overlapping" in str(exc):
+                    r.check(False, key, fr.loc(), f"_read_multiple ORs cells onto overlapping bit positions ({exc})")
+                else:
+                    raise AnalysisError(f"R18.le: _read_multiple outside the bit-slice domain: {exc}")
+    r.floor(16)
 
 
 def acc_rule(ctx: Ctx) -> None:
@@ -246,31 +205,27 @@ def cfg_rule(ctx: Ctx) -> None:
     m = ctx.model
     mem = m.cls("Memory")
     r = ctx.rule("R18.cfg", "memory configurations")
-    st = m.method("RiscvArchitecturalState", "__init__", own=True)
-    calls = [c for c in calls_in(st.node) if m.resolve_class(st.module, c.func) is mem]
-    if len(calls) != 2:
-        raise AnalysisError("R18.cfg: the two Memory(..) constructions vanished")
-    try:
-        alen = fold_in(m, st.module, next(n.value for n in walk_no_nested(st.node) if isinstance(n, (ast.Assign, ast.AnnAssign))
-                                         and ast.unparse(n.targets[0] if isinstance(n, ast.Assign) else n.target) == "address_length"))
-    except (StopIteration, Unknown) as exc:
-        raise AnalysisError(f"R18.cfg: address_length does not fold: {exc}")
+    from ..cacheshape import call_args, data_memory_constructions
+    st, sfl, calls = data_memory_constructions(m)
+    if not calls:
+        raise AnalysisError("R18.cfg: no Memory(..) construction reaches self.memory of the RISC-V state")
     for i, c in enumerate(calls):
+        ca = call_args(m, c, "Memory") or {}
         try:
-            a = [ast.unparse(c.args[0]), fold_in(m, st.module, c.args[1], extra={"address_length": Val(alen)}),
-                 fold_in(m, st.module, c.args[2]), fold_in(m, st.module, c.args[3], extra={"address_length": Val(alen)})]
-        except (Unknown, IndexError) as exc:
+            a = [ast.unparse(ca["addressing_type"]), fold_in(m, st.module, ca["address_length"]),
+                 fold_in(m, st.module, ca["address_overflow"]) if "address_overflow" in ca else False,
+                 fold_in(m, st.module, ca["address_range"]) if "address_range" in ca else None]
+        except (Unknown, KeyError) as exc:
             raise AnalysisError(f"R18.cfg: Memory(..) arguments do not fold: {exc}")
-        lo = c.args[3].args[0] if isinstance(c.args[3], ast.Call) and c.args[3].args else None
-        lo_ok = lo is not None and " ".join(ast.unparse(lo).split()) == "Settings().get()['memory_address_min_bytes']"
-        al = next((n.value for n in walk_no_nested(st.node) if isinstance(n, (ast.Assign, ast.AnnAssign))
-                   and ast.unparse(n.targets[0] if isinstance(n, ast.Assign) else n.target) == "address_length"), None)
-        lo_ok = lo_ok and al is not None and " ".join(ast.unparse(al).split()) == "Settings().get()['memory_address_length']"
+        rng = ca.get("address_range")
+        lo = rng.args[0] if isinstance(rng, ast.Call) and rng.args else None
+        lo_ok = lo is not None and " ".join(ast.unparse(lo).split()) == "Settings().get()['memory_address_min_bytes']" \
+            and " ".join(ast.unparse(ca["address_length"]).split()) == "Settings().get()['memory_address_length']"
         if not lo_ok:
-            r.viol(f"riscv-memory-{i}|settings-keys", st.loc(c), "the data memory's bounds are not taken from the settings "
-                   "memory_address_min_bytes / memory_address_length (they only coincide with other settings by default)")
+            r.viol(f"riscv-memory-{i}|settings-keys", st.loc(), "the data memory's bounds are not taken from the settings "
+                   "memory_address_min_bytes / memory_address_length (they only coincide with other settings by default): " + sfl.show(c))
         ok = a == ["AddressingType.BYTE", 32, True, range(2 ** 14, 2 ** 32)]
-        r.check(ok, f"riscv-memory-{i}", st.loc(c), f"RISC-V data memory is configured as {a}; documented: byte cells, 32-bit addresses, "
+        r.check(ok, f"riscv-memory-{i}", st.loc(), f"RISC-V data memory is configured as {a}; documented: byte cells, 32-bit addresses, "
                 "wrap-around on, valid range [2^14, 2^32)")
     ts = m.method("ToyArchitecturalState", "__init__", own=True)
     calls = [c for c in calls_in(ts.node) if m.resolve_class(ts.module, c.func) is mem]
@@ -295,4 +250,4 @@ def cfg_rule(ctx: Ctx) -> None:
     want = {"BYTE": "UInt8", "HALF_WORD": "UInt16", "WORD": "UInt32", "DOUBLE_WORD": "UInt64"}
     got = {k: ast.unparse(v) for k, v in at.assigns.items()}
     r.check(got == want, "AddressingType", at.loc(), f"AddressingType maps {got}")
-    r.floor(5)
+    r.floor(4)
